@@ -8,6 +8,9 @@ import Nstd.Xml.Model
     rt <tree>             -> ok <dump> | fail ... (parse (Xml::toString tree))
     esc <0|1> <hex>       -> str <hex>            (escapeString, text / attribute value)
     unesc <hex>           -> str <hex>
+    deep <tree> <depth>   -> dp <tree A> <tree B> <first child W>  (B(A), then a write `depth` levels down the
+                             first-element-child path of B through mutable toElement(); W a Variant assigned
+                             from A's first child and renamed; A printed after the writes)
     copy <tree>           -> cp <tree A> <tree B> <tree C>   (copies of an Element are independent values:
                              B(A) copy-constructed then edited at top level, C = A assigned then its
                              content cleared, A printed after the edits and destroyed before B, C are printed;
@@ -63,6 +66,30 @@ def Content.tail : Content → Content
 def editCopy : Elem → Elem
   | .mk _ l c attrs content =>
     .mk [122, 122] l c (attrSet attrs [107] [118]) (content.tail.snoc (.text [110, 101, 119] .nil))
+
+def editDeepHere : Elem → Elem
+  | .mk _ l c attrs content => .mk [122, 122] l c attrs (content.snoc (.text [110, 101, 119] .nil))
+
+mutual
+  /-- follow the first element child `d` times (as far as there is one), edit there -/
+  partial def deepEdit (d : Nat) (e : Elem) : Elem :=
+    match d, e with
+    | 0, e => editDeepHere e
+    | d + 1, .mk n l c attrs content =>
+      match deepFirst d content with
+      | some content' => .mk n l c attrs content'
+      | none => editDeepHere e
+  partial def deepFirst (d : Nat) : Content → Option Content
+    | .nil => none
+    | .text s r => (deepFirst d r).map (.text s)
+    | .elem e r => some (.elem (deepEdit d e) r)
+end
+
+/-- the Variant `w` of the harness' `deep` op: a copy of the first child, renamed `yy` when it is an element -/
+def firstChildSpec : Elem → String
+  | .mk _ _ _ _ .nil => "n"
+  | .mk _ _ _ _ (.text s _) => "t" ++ hx s
+  | .mk _ _ _ _ (.elem (.mk _ l c attrs ct) _) => specElem (.mk [121, 121] l c attrs ct)
 
 def clearContent : Elem → Elem
   | .mk n l c attrs _ => .mk n l c attrs .nil
@@ -151,6 +178,10 @@ def stepLine (_ : Unit) (ws : List String) : Unit × String :=
     match parseTree tr with
     | some e => ((), "cp " ++ specElem e ++ " " ++ specElem (editCopy e) ++ " " ++ specElem (clearContent e))
     | none => ((), "bad-op")
+  | ["deep", tr, d] =>
+    match parseTree tr, d.toNat? with
+    | some e, some d => ((), "dp " ++ specElem e ++ " " ++ specElem (deepEdit d e) ++ " " ++ firstChildSpec e)
+    | _, _ => ((), "bad-op")
   | ["esc", m, h] =>
     match bytesOfHex h with
     | some bs =>
